@@ -46,7 +46,9 @@
 (*   C20.asyncResult   the _async form returns the pending result          *)
 (*   C20.tcpEndpoints  tcp:// yields exactly the listed endpoints in order *)
 (*   C20.zkProvider    zk:// yields a ZooKeeper-backed provider for the    *)
-(*                     given hosts, path and optional endpoint name        *)
+(*                     given hosts, path and optional endpoint name (path  *)
+(*                     and name as given, case sensitive; host names       *)
+(*                     compared case-insensitively, also for tcp://)       *)
 (*   C20.rejectsOther  any other scheme is rejected                        *)
 (*                                                                         *)
 (* End-to-end events (the generated client over the real dispatcher over a *)
@@ -195,17 +197,23 @@ FwdCheck(e) ==
           /\ e.res.fkind = e.prog.kind /\ e.res.tok = e.prog.tok
        THEN "ok" ELSE "C20.asyncResult"
 
+\* Host names are not case sensitive: endpoints are compared with their host names folded to lower case.
+\* ZooKeeper paths and endpoint names are case sensitive: compared as given.
+LowerCp(c) == IF c >= 65 /\ c <= 90 THEN c + 32 ELSE c
+LowerEp(x) == [h |-> [i \in DOMAIN x.h |-> LowerCp(x.h[i])], p |-> x.p]
+LowerEps(s) == [i \in DOMAIN s |-> LowerEp(s[i])]
+
 \* e = [uri, res |-> [kind, eps, hosts, path, hasEp, ep]]
 \* kind: "static" | "zk" | "rejected" | "other"; hasEp/ep/path: -1 / <<>> when not observable
 UriCheck(e) ==
   LET u == e.uri IN
   IF ~UriDomain(u) THEN "harness.uriDomain"
   ELSE IF HasScheme(u) /\ Scheme(u) = Tcp THEN
-    IF e.res.kind = "static" /\ e.res.eps = ParseTcp(AfterScheme(u)) THEN "ok" ELSE "C20.tcpEndpoints"
+    IF e.res.kind = "static" /\ LowerEps(e.res.eps) = LowerEps(ParseTcp(AfterScheme(u))) THEN "ok" ELSE "C20.tcpEndpoints"
   ELSE IF HasScheme(u) /\ Scheme(u) = Zk THEN
     LET z == ParseZk(AfterScheme(u)) IN
     IF /\ e.res.kind = "zk"
-       /\ (e.res.hostsSeen = 0 \/ ToSet(e.res.hosts) = z.hosts)
+       /\ (e.res.hostsSeen = 0 \/ {LowerEp(x) : x \in ToSet(e.res.hosts)} = {LowerEp(x) : x \in z.hosts})
        /\ (e.res.pathSeen = 0 \/ e.res.path = z.path)
        /\ e.res.hasEp = z.hasEp /\ (z.hasEp = 0 \/ e.res.ep = z.ep)
     THEN "ok" ELSE "C20.zkProvider"
